@@ -111,6 +111,10 @@ SIBLINGS = {
     'C01-r8-2': ['C01', 'C02'],   # the 26th generated name repeats the first: non-injective renaming (C02)
     'C11-r8-1': ['C11', 'C14'],   # a missing file behind a nested require() no longer fails the build (nothing fails, so C11 has nothing to judge): C14's last sentence
     'C19-r7-3': ['C19', 'C20'],
+    'C02-r10-1': ['C02', 'C01'],   # an identifier glued to the hex numeral before it: two tokens fuse (C01); C02 cannot align such output and says INCONCLUSIVE
+    'C09-r10-2': ['C09', 'C07', 'C08'],   # the lexer rejects "\255": a valid program is rejected (C07 / C08); C09's own run says INCONCLUSIVE (its programs are rejected)
+    'C01-r10-2': ['C01', 'C02'],   # an API name used as a field is renamed in one place and kept in another: the renaming relation is C02's oracle
+    'C19-r10-1': ['C19', 'C07'],   # a continuation line of a quoted string that starts with `--` is lexed as a comment when the text arrives line by line: tokenisation (C07)
     'C06-r9-1': ['C06', 'C04', 'C05'],   # the _update60 shim stored as cart code when the code is kept raw: the .p8.png code area is C04's / C05's subject
     'C19-r9-3': ['C19', 'C06'],   # Lua.update_from_lines() drops what earlier calls loaded: the object's code is C06's subject   # #include of a cart drops that cart's leading comments: the spliced lines are C20's subject
     'C08-r6-3': ['C08', 'C14'],   # default AST-walker handlers missing for keyed table fields: the parser's tree is intact, build's RequireWalker crashes (C14)   # the change is in #include processing (a commented-out include is expanded): C20's "every other line unchanged"   # the AST *walker* skips if-blocks (the parser's tree is intact): require() inside an if is not packaged (C14)
@@ -129,6 +133,16 @@ NOT_A_VIOLATION = {
                 '(PICO-8\'s line-wise expansion of `a += b`) a compound assignment ends with its line, so such a program is outside the domain',
     'C20-r7-1': 'only affects directive lines with other text after the name (`#include x.lua // note`); the statement speaks of `#include NAME` '
                 'lines and does not say what trailing text means',
+    'C18-r10-1': 'only affects a Game one of whose regions is LONGER than its slot in the memory map (a .p8 whose __map__ section has 64 rows, which '
+                 'neither PICO-8 nor picotool writes); C18 speaks of regions that have, and keep, their memory-map size - for a region that '
+                 'overlaps its neighbours\' addresses "the addressed bytes" are not defined',
+    'C18-r10-3': 'same precondition as C18-r10-1: only carts with an over-long region (4 rows in __gff__, 64 in __map__) are affected',
+    'C06-r10-3': 'makes `build` refuse a .lua source that picotool\'s parser cannot parse to its end (compound operators outside the dialect, '
+                 '`flags |= 4`); nothing is written, so nothing is reproduced wrongly, and C06 does not promise that code outside the supported '
+                 'dialect is copied (C09\'s last sentence asks for exactly this refusal from tree-driven rewrites)',
+    'C08-r10-3': 'removes the node that stands for redundant parentheses around a single value (`(f())` gets the tree of `f()`); C08 lists what '
+                 'the tree must carry (statement kinds, nesting, chains, lists, fields, targets, operators and operands in source order) and '
+                 'parentheses are not among them - Appendix B compares expressions without them by design; all writer output is unchanged',
     'C08-r9-2': 'only affects an `if (cond)` with no statement after it on its line (`if (dbg) -- print(x)`); in the dialect of Appendix A a '
                 'short-form if has one or more statements on its line, and C08 speaks of the statements a short-if owns. What a condition '
                 'with nothing to own means is not defined by the statements (the unchanged tree reads a `do` block on the NEXT line as its '
